@@ -139,6 +139,24 @@ void k(int *t, int n, int i) { int ok = t[i < n ? i : n] == 0 && n > 1; if (ok &
 """
 
 
+EXTRA_CPP = """
+namespace outer { namespace inner { int q; int r;
+int s; }}
+int sw(int a) { switch (a) { case 1: a++; break;
+default: a--; } return -1; }
+class Kc { public: int m() { int z = 1;
+return z; } int w; };
+"""
+
+EXTRA_OC = """
+@interface Foo : NSObject
+@property (nonatomic, strong, readonly, nullable) NSString *name;
+@property (copy, nonatomic, getter=isOn, setter=setOn:) id thing;
+@property (class, atomic, assign, readwrite, nonnull) Foo *shared;
+@end
+"""
+
+
 def tok_texts(toks):
     out = []
     for k, cps in toks:
@@ -178,6 +196,37 @@ def directive_lines(texts, toks):
         rest.append(t)
         i += 1
     return out_lines, rest
+
+
+def sort_property_attrs(toks):
+    out, i, n = [], 0, len(toks)
+    while i < n:
+        if toks[i] == "@" and i + 2 < n and toks[i + 1] == "property" and toks[i + 2] == "(":
+            j, depth = i + 3, 1
+            while j < n and depth:
+                depth += toks[j] == "("
+                depth -= toks[j] == ")"
+                j += 1
+            inner = toks[i + 3:j - 1]
+            items, cur = [], []
+            for t in inner:
+                if t == ",":
+                    items.append(tuple(cur))
+                    cur = []
+                else:
+                    cur.append(t)
+            items.append(tuple(cur))
+            out += toks[i:i + 3]
+            for k, it in enumerate(sorted(items)):
+                if k:
+                    out.append(",")
+                out += list(it)
+            out.append(")")
+            i = j
+        else:
+            out.append(toks[i])
+            i += 1
+    return out
 
 
 BR = {"(": "a", ")": "b", "[": "c", "]": "d", "{": "e", "}": "f"}
@@ -225,9 +274,12 @@ def run(ctx):
             lang = rng.choice(["C", "CPP", "CPP", "JAVA"])
             lines, txt = gen.program(rng, lang, stats=ctx.hist, layout={"indent": "clean", "gaps": "one", "trailing": 0, "blanklines": 0.05})
             if lang != "JAVA":
-                txt = EXTRA_C + txt
+                txt = EXTRA_C + (EXTRA_CPP if lang == "CPP" else "") + txt
             inputs.append((sc.write(txt, {"C": ".c", "CPP": ".cpp", "JAVA": ".java"}[lang]), lang, txt, "gen%d" % i))
-        corp = [p for p in lexcheck.corpus_pairs(("c", "cpp")) if os.path.getsize(p[2]) < 20000]
+        for i in range(3 if thorough else 2):
+            txt = EXTRA_OC + "int oc_tail%d;\n" % i
+            inputs.append((sc.write(txt, ".m"), "OC", txt, "genoc%d" % i))
+        corp = [p for p in lexcheck.corpus_pairs(("c", "cpp", "objective-c")) if os.path.getsize(p[2]) < 20000]
         rng.shuffle(corp)
         for tid, cfg, inp, exp, lang in corp[:(150 if thorough else 25)]:
             inputs.append((inp, lang, None, "corpus:" + os.path.relpath(inp, common.REPO)))
@@ -304,6 +356,9 @@ def run(ctx):
                 continue
             a, b = tok_texts(tin), tok_texts(tout)
             vals = j.vals
+            if vals.get("mod_sort_oc_properties") == "true":
+                # the attributes of an Objective-C @property(...) may be reordered as whole comma-separated items
+                a, b = sort_property_attrs(a), sort_property_attrs(b)
             add, rem, sort, dup, moves = allowed(vals)
             if sort or dup:
                 la, ra = directive_lines(a, tin)
